@@ -4,6 +4,7 @@
 package lab
 
 import (
+	"crypto/elliptic"
 	"crypto"
 	"crypto/ecdsa"
 	"crypto/rand"
@@ -181,4 +182,29 @@ func PublicKey(k Kind, name string, enc protocol.KeyEncoding) (*protocol.PublicK
 		}
 	}
 	return nil, fmt.Errorf("unsupported encoding %d", enc)
+}
+
+var shortKeys sync.Map
+
+// ShortCoordKey returns a (deterministic, tiny-scalar) EC key whose x (or y) coordinate has a leading zero octet: about one
+// key in 128 has, and an encoding that strips or demands leading zeros has to cope with it.
+func ShortCoordKey(c elliptic.Curve, wantY bool) *ecdsa.PrivateKey {
+	id := fmt.Sprintf("%s/%v", c.Params().Name, wantY)
+	if k, ok := shortKeys.Load(id); ok {
+		return k.(*ecdsa.PrivateKey)
+	}
+	n := (c.Params().BitSize + 7) / 8
+	for k := int64(2); ; k++ {
+		d := big.NewInt(k)
+		x, y := c.ScalarBaseMult(d.Bytes()) //nolint:staticcheck // deterministic search over small scalars
+		v := x
+		if wantY {
+			v = y
+		}
+		if len(v.Bytes()) < n {
+			key := &ecdsa.PrivateKey{PublicKey: ecdsa.PublicKey{Curve: c, X: x, Y: y}, D: d}
+			shortKeys.Store(id, key)
+			return key
+		}
+	}
 }
